@@ -50,3 +50,57 @@ def shape_strata(module, factory, tier, *, extra=None, quick=None, thorough=None
         for n in s["ns"]:
             jobs += shape_jobs(n, s.get("pin", {}).get(n, 0), base, s["name"])
     return jobs
+
+
+def pipeline_jobs(factory, tier, *, relists=("atoms", "bonds"), elem=True, curated=True, extra=None,
+                  module="harness.pipeline", scale=1.0, km_q=2, kr_q=1, km_t=3, kr_t=2, curated_relist="atoms",
+                  n_max_q=4, n_max_t=5):
+    """Standard strata of DESIGN §5 for a graph-level harness."""
+    extra = extra or {}
+    thorough = tier == "thorough"
+    ms = 3000 if thorough else 240
+    strata = []
+    nmax = n_max_t if thorough else n_max_q
+    pin_shape = {4: 4, 5: 8}
+    for r in relists:
+        if r == "atoms" or r is None:
+            par = dict(K_m=km_t if thorough else km_q, K_r=kr_t if thorough else kr_q)
+            ns = list(range(1, nmax + 1))
+        else:
+            par = dict(K_m=2 if thorough else 1, K_r=1 if thorough else 0)
+            ns = list(range(2, nmax + 1))
+        if r is not None:
+            par["relist"] = r
+        strata.append(dict(name=f"S-shape/{r or 'single'}", ns=ns, pin=pin_shape, params=par))
+    if elem:
+        r = relists[0]
+        par = dict(K_m=2 if thorough else 1, K_r=1)
+        if r is not None:
+            par["relist"] = r
+        if thorough:
+            strata.append(dict(name="S-elem4", ns=[2, 3, 4], pin={3: 3, 4: 6}, params=dict(par, alphabet=SIGMA_T4)))
+            strata.append(dict(name="S-elem6", ns=[2, 3], pin={3: 3}, params=dict(par, alphabet=SIGMA_Q)))
+        else:
+            strata.append(dict(name="S-elem6", ns=[2], pin={}, params=dict(par, alphabet=SIGMA_Q)))
+            strata.append(dict(name="S-elem4", ns=[3], pin={3: 3}, params=dict(par, alphabet=SIGMA_T4)))
+    js = shape_strata(module, factory, tier, extra=extra, quick=strata, thorough=strata, max_seconds=ms)
+    if curated:
+        for name, (n, bonds) in CURATED.items():
+            if not thorough and n > 8:
+                continue
+            par = dict(extra, n=n, bonds=[list(b) for b in bonds], K_m=(3 if n <= 6 else 2) if thorough else (2 if n <= 6 else 1),
+                       K_r=1 if thorough and n <= 8 else 0)
+            if curated_relist is not None:
+                par["relist"] = curated_relist
+            js.append(job(module, factory, f"S-curated/{name}", par, max_seconds=ms))
+    return js
+
+
+def std_bounds(tier, relist=True):
+    t = tier == "thorough"
+    b = {"atoms": "all labelled simple graphs on n <= %d atoms; curated skeletons (C6 ring, prism, K3,3, 2xC3, star K1,5, P8, cubane, C4+C4, C8 ring%s)" % (5 if t else 4, ", Petersen" if t else ""),
+         "labels": "at most K_m mass and K_r radical labels at solver-chosen atoms (K_m<=%d, K_r<=%d on S-shape; fewer on the larger strata, see strata), values symbolic integers >= 1, unbounded above" % ((3, 2) if t else (2, 1)),
+         "alphabets": {"S-shape": ["C"], "S-elem6 (n<=%d)" % (3 if t else 2): SIGMA_Q, "S-elem4 (n<=%d)" % (4 if t else 3): SIGMA_T4}}
+    if relist:
+        b["relistings"] = "one adjacent transposition of the atom listing at a solver-chosen position (generators of S_n; the strata are closed under relabelling); bond listing reversed / rotated; bond orientation none / all / one solver-chosen bond flipped"
+    return b
